@@ -463,14 +463,17 @@ def activity(isotope, mass, env, exposure, rest_times):
             # Column W: L/(L-nvs1+nvs2)
             W = lam/(lam-flux*initialXS*3600*1e-24+env.fluence*effectiveXS*3600*1e-24)
             # Column X: V#*[e(-S#)-e(U#)]
-            if abs(U) < 1e-10 and abs(V) < 1e-10:
-                precision_correction = W * (V-U+(V+U)/2)
+            # Use exp(-U)-exp(-V) = -exp(-U)*expm1(U-V) = exp(-V)*expm1(V-U)
+            # to avoid cancellation when U and V are small or nearly equal.
+            # Choose the form with the negative argument so it cannot overflow.
+            if U <= V:
+                precision_correction = -W * exp(-U) * expm1(U-V)
             else:
-                precision_correction = W * (exp(-U)-exp(-V))
+                precision_correction = W * exp(-V) * expm1(V-U)
 
             activity = root*precision_correction
             if activity < 0:
-                msg = "activity %g less than zero for %g"%(activity, isotope)
+                msg = "activity %g less than zero for %s"%(activity, isotope)
                 raise RuntimeError(msg)
             #print(ai.thermalXS_parent, ai.resonance_parent, exposure)
             #print("P", effectiveXS, "U", U, "V", V, "W", W, "X",
